@@ -625,7 +625,7 @@ fn run<'a, const D: usize, const F: usize, const V: usize>(dev: &'a Dev, clock: 
             writeln!(out, "ST {} {} {} {} {}", n, sl, a, b, c).unwrap();
         }
         match int_line(&format!("{:?}", vm)) {
-            Some(l) => writeln!(out, "INT {} {}", n, l).unwrap(),
+            Some(l) => writeln!(out, "INT {} {} clk={}", n, l, clock.k.get()).unwrap(),
             None => writeln!(out, "INT {} unparsed", n).unwrap(),
         }
     }
